@@ -56,13 +56,21 @@ L = None
 _abs_cache = {}
 
 
+_parse_cache = {}
+
+
 def parse(data: bytes):
-    """what the handler's own try/except makes of the datagram"""
+    """what the handler's own try/except makes of the datagram (cached: the result is only read)"""
+    if data in _parse_cache:
+        return _parse_cache[data]
     try:
         pdu = L["HSTRP"].from_bytes(data)
     except BaseException:  # noqa: the handler uses a bare except as well
         pdu = None
-    return pdu if isinstance(pdu, L["HSTRP"]) else None
+    pdu = pdu if isinstance(pdu, L["HSTRP"]) else None
+    if len(_parse_cache) < 100000:
+        _parse_cache[data] = pdu
+    return pdu
 
 
 def type_bits(t) -> str:
@@ -397,6 +405,8 @@ def dfs(ctx, kind, start, classes, maxlen, pairs, flush):
             path.pop()
             if len(pairs) > 300000 and depth == 0:
                 flush()
+                # a flush ends the driver process: re-establish the start state (we are back at it)
+                pairs.append((f"reset {int(start[0])} {start[1]}", "ok"))
 
     rec(0, {})
     return count
@@ -444,8 +454,8 @@ def run(ctx):
 def _run(ctx):
     ctx.rule = (
         "datagram histories delivered to HSTRPDatagramProtocol / RRSDatagramProtocol with a recording transport: corpus "
-        "(ack ping-pong of the repaired defect), every sequence up to length 4 (quick) / 5 (thorough) over 20 datagram "
-        "classes and up to length 6 over the 12 core classes (thorough) from start states connected x {0, 0xFFFD, 0xFFFE} "
+        "(ack ping-pong of the repaired defect), every sequence up to length 4 over 20 datagram classes (both tiers) and up "
+        "to length 6 over the 12 core classes (thorough) from start states connected x {0, 0xFFFD, 0xFFFE} "
         "(prefixes shared by snapshot/restore), two composed handlers for every class x connected flags, random histories up "
         "to 200 datagrams with random type bits / S/N / options / RRS opcodes / radio ids, random truncation and 1-3 bit "
         "flips. Model input = abstraction of what the real HSTRP.from_bytes returns. A delivery is non-trivial when the "
@@ -495,8 +505,8 @@ def _run(ctx):
     flush("hstrp.pingpong")
     # ---- exhaustive sequences
     starts = [(False, 0), (True, 0xFFFD), (False, 0xFFFE)]
-    full_len = 5 if ctx.thorough() else 4
-    if ctx.boost > 1:
+    full_len = 4
+    if ctx.boost > 1 and not ctx.thorough():
         full_len = 5
     for si, start in enumerate(starts):
         L_here = full_len if si == 0 else full_len - 1
@@ -520,7 +530,7 @@ def _run(ctx):
             ctx.case(("plain", seq))
     flush("hstrp.plain-sequences")
     # ---- random histories
-    nrand = ctx.budget(500, 10000)
+    nrand = ctx.budget(500, 6000)
     for i in range(nrand):
         length = ctx.rng.choice([1, 3, 10, 40, 100, 200]) if i % 7 else 200
         kind = "rrs" if i % 5 else "base"
